@@ -230,7 +230,7 @@ fn shape_is_neg(text: &str) -> bool {
 pub fn gen_c14(cx: &mut Ctx) {
     let leaves = vec![lit("a"), lit("x_10"), lit("-"), cst(true), cst(false)];
     for e in trees_up_to(if cx.thorough { 5 } else { 4 }, &leaves, 3, 1) {
-        let nt = crate::gen::trees_up_to as usize != 0 && e.to_string().contains('&') && e.to_string().contains('|');
+        let nt = e.to_string().contains('&') && e.to_string().contains('|');
         cx.emit("C14", "roundtrip", &[Arg::F(Val::E(e.clone()))], nt);
         cx.emit("C14", "print", &[Arg::F(Val::E(e))], nt);
     }
